@@ -2,7 +2,7 @@
 import ECAgent.Core as core
 from ECAgent.Decode import IDecodable
 
-from vlib.fixtures.decodables_state import EVENTS, CURRENT, SHARED   # shared by this module and its alias module
+from vlib.fixtures.decodables_state import EVENTS, CURRENT, SHARED, FLAKY   # shared by this module and its alias module
 
 MODULE = __name__    # the same source is also loaded under a second module name (same symbol names, different module)
 
@@ -60,6 +60,31 @@ class RAgent(core.Agent, IDecodable):
         return RAgent(f"{params['group']}_{i}", m)
 
 
+class FlakyAgent(core.Agent, IDecodable):
+    """Like RAgent; while the harness has armed it, the constructor of the agent with index `fail_at` raises (a caller-supplied
+    iterator that runs dry: StopIteration; an ordinary error; a KeyboardInterrupt-like)."""
+
+    @staticmethod
+    def decode(params):
+        m = params.get('model')
+        i = params.get('agent_index')
+        if FLAKY['armed'] and i == params.get('fail_at'):
+            from vlib import faults
+            raise {'StopIteration': StopIteration, 'Boom': faults.Boom, 'Interrupt': faults.Interrupt}[params.get('exc', 'Boom')]('agent constructor fails')
+        _ev('agent_create', params['group'], i, m if m is not None else CURRENT[0], m)
+        return FlakyAgent(f"{params['group']}_{i}", m)
+
+
+class FailingSystem(core.System, IDecodable):
+    def execute(self):
+        pass
+
+    @staticmethod
+    def decode(params):
+        from vlib import faults
+        raise faults.Boom('a system of the nested description cannot be built')
+
+
 DynSystem = None      # bound by a pre_system_init hook ('bind'): the description names a class that only exists once its pre hook ran
 
 
@@ -77,7 +102,16 @@ def hook(params):
         # is still in progress; the sub-model's own events are not part of the outer lifecycle
         n, cur = len(EVENTS), CURRENT[0]
         inner = SHARED['inner']
-        SHARED['decoder'].decode(copy.deepcopy(inner) if isinstance(inner, dict) else inner)
+        if params['nested'] == 'fail':
+            # the nested description cannot be decoded (its second system fails to build, after its model exists); the hook shrugs
+            inner = SHARED['inner_fail']
+            try:
+                SHARED['decoder'].decode(copy.deepcopy(inner) if isinstance(inner, dict) else inner)
+                SHARED['nested_fail_unexpectedly_ok'] = True
+            except Exception:  # noqa
+                SHARED['nested_failures'] = SHARED.get('nested_failures', 0) + 1
+        else:
+            SHARED['decoder'].decode(copy.deepcopy(inner) if isinstance(inner, dict) else inner)
         SHARED['nested_runs'] = SHARED.get('nested_runs', 0) + 1
         del EVENTS[n:]
         CURRENT[0] = cur
